@@ -17,6 +17,9 @@ const (
 	planSuccess   = 'S' // dial returns a connection at its turn
 	planFail      = 'F' // dial returns its own unique error at its turn
 	planHandshake = 'H' // dial returns a connection whose first Write fails (handshake failure after establishment)
+	planJoin2     = 'J' // like F, but the dial error is errors.Join of two errors
+	planMulti3    = 'M' // like F, but the dial error is multierr.Combine of three errors
+	planHsClose   = 'K' // like H, and Close() of that connection also returns an error (dialTransport combines both)
 	planBadSecret = 'X' // dial returns a connection, the DC option carries an unparsable secret (failure after establishment, nothing written)
 	planBlock     = 'B' // dial blocks until its context is done and returns ctx.Err()
 	planLate      = 'L' // stress only: dial ignores its context and returns a connection only after the resolver call returned
@@ -27,6 +30,9 @@ type evt struct {
 	Kind string
 	Dial int
 }
+
+func isDialFail(p byte) bool  { return p == planFail || p == planJoin2 || p == planMulti3 }
+func isWriteFail(p byte) bool { return p == planHandshake || p == planHsClose }
 
 func (e evt) String() string { return fmt.Sprintf("%d:%s#%d", e.Seq, e.Kind, e.Dial) }
 
@@ -58,7 +64,8 @@ type dialState struct {
 	pre   int           // stress: delay before the outcome
 	post  int           // stress: planLate delay after the call returned
 	token string        // unique text of this dial's failure
-	fail  error         // dial error (F) or write error (H)
+	fail  error         // dial error (F, J, M) or write error (H, K)
+	cerr  error         // K: error returned by Close
 
 	// monitored, guarded by monitor.mu
 	starts  int
@@ -73,6 +80,7 @@ type callState struct {
 	ret     chan struct{}
 	retConn transport.Conn
 	retErr  error
+	hung    bool // hang|all-dials-finished was recorded; the call was then ended by cancellation
 
 	// guarded by monitor.mu
 	started   int
@@ -115,7 +123,7 @@ func (c *fakeConn) Write(b []byte) (int, error) {
 		return 0, net.ErrClosed
 	}
 	c.writes++
-	if c.d.plan == planHandshake && !c.wfailed {
+	if isWriteFail(c.d.plan) && !c.wfailed {
 		c.wfailed = true
 		c.d.failSeq = c.m.log(c.d.call, "wfail", c.d.idx)
 		return 0, c.d.fail
@@ -131,7 +139,7 @@ func (c *fakeConn) Close() error {
 	}
 	c.m.mu.Unlock()
 	c.once.Do(func() { close(c.closedCh) })
-	return nil
+	return c.d.cerr // nil except for K
 }
 
 func (c *fakeConn) LocalAddr() net.Addr                { return fakeAddr("harness") }
@@ -172,7 +180,7 @@ func (m *monitor) dial(ctx context.Context, network, addr string) (net.Conn, err
 	case planBlock:
 		<-ctx.Done()
 		return m.failed(d, ctx.Err(), "ctxerr")
-	case planFail:
+	case planFail, planJoin2, planMulti3:
 		return m.failed(d, d.fail, "fail")
 	case planLate:
 		<-d.call.ret
